@@ -37,6 +37,7 @@ pub fn cli_route(id: &str) -> Vec<(report::Violation, serde_json::Value)> {
     let scratch = util::Scratch::new("cli");
     match id {
         "C01" => cli::c01(&scratch),
+        "C04" => cli::c04(&scratch),
         "C05" => cli::c05(&scratch),
         "C08" => c08::cli_route(&scratch),
         "C09" => cli::c09(&scratch),
@@ -95,6 +96,9 @@ fn main() {
             "c16" | "c16-stitched" => c16::replay(case),
             "c18" => c18::replay(case),
             "c15" | "c15-route" => c15::replay(case),
+            "c02-ids" => c02::high_id_cases().into_iter().map(|(v, _)| v).collect(),
+            "c07-ids" => c07::high_id_cases().into_iter().map(|(v, _)| v).collect(),
+            "c05-long" => c05::long_history_cases().into_iter().map(|(v, _)| v).collect(),
             "cli" => cli_route(case["property"].as_str().unwrap_or("")).into_iter().map(|(v, _)| v).collect(),
             "delete" => c05::replay(case),
             "e3" => match case["check"].as_str().unwrap_or("") {
@@ -154,10 +158,11 @@ fn main() {
         }));
     }
     let budget = budget_for(tier);
-    if matches!(id, "C01" | "C05" | "C08" | "C09" | "C12" | "C15" | "C16" | "C18") {
-        let _g = util::announce(0, || format!("{id} command-line sub-sweep"));
-        cli::report_all(&report, cli_route(id));
-    }
+    // The command-line sub-sweep runs beside the main sweep (its processes have their own time limit).
+    let cli_thread = matches!(id, "C01" | "C04" | "C05" | "C08" | "C09" | "C12" | "C15" | "C16" | "C18").then(|| {
+        let id = id.to_string();
+        std::thread::spawn(move || cli_route(&id))
+    });
     match id {
         "C01" => c01::run(&report, &budget),
         "C02" => c02::run(&report, &budget),
@@ -180,6 +185,15 @@ fn main() {
         _ => {
             eprintln!("unknown property {id}");
             std::process::exit(2);
+        }
+    }
+    if let Some(h) = cli_thread {
+        match h.join() {
+            Ok(v) => cli::report_all(&report, v),
+            Err(_) => {
+                eprintln!("vh: the command-line sub-sweep panicked (machinery error, not a verdict)");
+                std::process::exit(3);
+            }
         }
     }
     report.set("budget_exhausted", serde_json::json!(budget.was_hit()));
